@@ -442,8 +442,14 @@ def self_pattern_rule(ctx, rule: str) -> None:
                   "config._parse_raw_config: the config file's own current_version pattern can be missing",
                   f"without the insertion, return is reachable when {(ex & ~BF.var(memb[0])).to_dnf()}", loc=prc.loc())
     for st in stores:
-        ok = shapes.flows_from(prc, st.value, lambda e: isinstance(e, ast.Call) and unparse(e.func) == "_parse_current_version_default_pattern")
+        is_pcv = lambda e: isinstance(e, ast.Call) and unparse(e.func) == "_parse_current_version_default_pattern"
+        ok = shapes.flows_from(prc, st.value, is_pcv)
+        # ... on every path: each definition of the stored name is that call (a per-format constant is not)
+        if ok and isinstance(st.value, ast.List) and len(st.value.elts) == 1 and isinstance(st.value.elts[0], ast.Name):
+            defs = [v for _s, tg, v in shapes.iter_assigns(prc.node) if unparse(tg) == st.value.elts[0].id]
+            ok = bool(defs) and all(is_pcv(v) or shapes.flows_from(prc, v, is_pcv) for v in defs)
         ctx.check(rule, ok and isinstance(st.value, ast.List) and len(st.value.elts) == 1,
                   "_parse_raw_config: inserted pattern is [_parse_current_version_default_pattern(...)]",
                   "config._parse_raw_config: inserted self pattern does not come from the current_version line",
-                  f"`{unparse(st)}`", loc=prc.loc(st))
+                  f"`{unparse(st)}`: a fixed text such as 'current_version = \"{{version}}\"' does not match a config that writes the value with other quotes or spacing "
+                  f"(TOML allows single quotes), so that file's own current_version is never updated", loc=prc.loc(st), witness={"pyproject.toml": "current_version = '1.2.3'"})
